@@ -13,6 +13,8 @@ use std::sync::{
 
 #[derive(Debug, Clone, Copy, PartialEq, Eq)]
 pub enum Point {
+    /// a thread id was taken from the `/proc/<pid>/task` listing; its name has not been read yet
+    BeforeThreadName(i32),
     /// `/proc/<pid>/task` has been read; nothing is attached yet
     ThreadsEnumerated,
     /// about to `PTRACE_ATTACH` the thread
